@@ -4,10 +4,16 @@
 # usage: mutant.sh <patch-file|-> <mode> <runs> [plain|race|instr] [seed]   ('-': no patch; REVERT=<commit> reverts a commit instead)
 set -u
 PATCH=$1; MODE=$2; RUNS=$3; RACE=${4:-plain}; SEED=${5:-1}
-WT=/var/tmp/mut_$$
+# a small, fixed set of worktree paths: the Go build cache keys on directory names, and a new path
+# per invocation filled the disk with 100 GB of cache entries
+SLOT=""
+for s in a b c d e f; do if mkdir /var/tmp/mutlock_$s 2>/dev/null; then SLOT=$s; break; fi; done
+[ -n "$SLOT" ] || { echo "all mutant slots busy"; exit 2; }
+WT=/var/tmp/mut_$SLOT
 export GOFLAGS=-mod=mod GOPROXY=off GOSUMDB=off GOTOOLCHAIN=local GODEBUG=asynctimerchan=0
-git -C /repo worktree add -q --detach $WT HEAD || exit 2
-cleanup() { git -C /repo worktree remove --force $WT; rm -rf /var/tmp/mutb_$$; }
+git -C /repo worktree remove --force $WT 2>/dev/null
+git -C /repo worktree add -q --detach $WT HEAD || { rmdir /var/tmp/mutlock_$SLOT; exit 2; }
+cleanup() { git -C /repo worktree remove --force $WT; rm -rf /var/tmp/mutb_$$; rmdir /var/tmp/mutlock_$SLOT; }
 trap cleanup EXIT
 if [ -n "${REVERT:-}" ]; then (cd $WT && git revert --no-edit -n $REVERT) || exit 2; fi
 if [ "$PATCH" != "-" ]; then (cd $WT && git apply "$PATCH") || { echo "patch does not apply"; exit 2; }; fi
